@@ -93,9 +93,10 @@ func (fr *Frame) instr(ins ssa.Instruction) {
 		l, c := fr.val(x.Len), fr.val(x.Cap)
 		enc.oblige("safety:make", fr.where(x), "make: len out of range", nil, pc, And(Le(IntLit(0), l), Le(l, c)))
 		ref := fr.freshRef(st)
-		es := w.sortOf(x.Type().Underlying().(*types.Slice).Elem())
+		elT := x.Type().Underlying().(*types.Slice).Elem()
+		es := w.sortOf(elT)
 		arrS := arraySort("Int", es)
-		h := st.Get(heapSliceName(es), arraySort("Int", arrS))
+		h := st.Get(heapSliceNameT(elT), arraySort("Int", arrS))
 		enc.assume(Eq(Select(h, ref), w.zero(arrS)), "make: zeroed backing array")
 		fr.vals[x] = enc.define(x.Name(), "Slice", A("mk_slice", ref, IntLit(0), l, c))
 	case *ssa.MakeMap:
@@ -184,7 +185,7 @@ func (fr *Frame) alloc(x *ssa.Alloc) {
 	case *types.Array:
 		es := w.sortOf(u.Elem())
 		arrS := arraySort("Int", es)
-		h := st.Get(heapSliceName(es), arraySort("Int", arrS))
+		h := st.Get(heapSliceNameT(u.Elem()), arraySort("Int", arrS))
 		enc.assume(Eq(Select(h, ref), w.zero(arrS)), "new array is zeroed")
 	default:
 		so := w.sortOf(el)
@@ -417,6 +418,11 @@ func (fr *Frame) lookup(x *ssa.Lookup) {
 		present := And(Not(Eq(m, IntLit(0))), Select(Select(has, m), k))
 		v := enc.define(fr.pfx+x.Name(), vs, Ite(present, Select(Select(val, m), k), w.zero(vs)))
 		fr.assumeWF(v, t.Elem(), fr.cur, 0)
+		for _, ti := range w.P.TypeInvs[types.TypeString(x.X.Type(), nil)] {
+			if len(ti.Vars) == 2 {
+				fr.assumeTypeInv(ti, []*Term{m, k}, []types.Type{x.X.Type(), t.Key()}, fr.cur)
+			}
+		}
 		if x.CommaOk {
 			fr.tuples[x] = []*Term{v, enc.define(fr.pfx+x.Name()+"_ok", "Bool", present)}
 		} else {
